@@ -95,20 +95,16 @@ def gen_case(rng, small):
     return gm, ops, sched, flavour + "/" + kind
 
 
-CORPUS = [
-    # the witness of barrier_destroy_waits_for_leavers_refuted: participant 0 returns, calls destroy (controller) while
-    # participant 1, the last leaver, has decremented blockers to 0 but not yet reset the gates
-    (0, ["c:2", "e:2:1", "d"], [3 * PREF] * 2 + [1 * PREF] * 4 + [2 * PREF] * 5 + [1 * PREF] + [2 * PREF] + [3 * PREF] * 4 + [2 * PREF] * 2, "corpus/destroy-race"),
-    (1, ["gi:2", "e:2:1", "gd"], [3 * PREF] * 2 + [1 * PREF] * 4 + [2 * PREF] * 5 + [1 * PREF] + [2 * PREF] + [3 * PREF] * 4 + [2 * PREF] * 2, "corpus/global-destroy-race"),
-    (0, ["c:2", "e:2:2", "w", "r:3", "e:3:1", "w", "d"], [0], "corpus/contract"),
-    (0, ["c:2", "e:2:1", "d"], [2 * PREF, PREF, 2 * PREF, 2 * PREF, 2 * PREF, PREF, PREF, 2 * PREF, 2 * PREF, 2 * PREF, 3 * PREF, 3 * PREF, 3 * PREF, 3 * PREF, 0], "corpus/destroy-spins"),
-    (0, ["c:3", "e:2:1", "d"], [0], "corpus/fewer-destroy-never-ends"),
-    (0, ["c:2", "e:3:2", "w", "d"], [839], "corpus/more"),
-    (0, ["c:1", "e:1:3", "w", "d", "c:2", "e:2:1", "w", "d"], [839], "corpus/recreate"),
-    (1, ["gi:2", "gi:5", "e:2:2", "w", "gr:3", "e:3:1", "w", "gd", "gd"], [0], "corpus/global"),
-    (1, ["e:2:1", "w", "gd"], [0], "corpus/global-null"),
-    (1, ["gi:3", "e:3:1", "gd"], [4 * PREF] * 3 + [839], "corpus/global-destroy-early"),
-]
+def _load_corpus():
+    """corpus/C11/life_cases.json: fixed cases that always run first (witnesses of the refuted statements, boundary scripts).
+    The controller is thread id = number of participants (0 before the first group): (id+1)*1024 prefers that thread."""
+    import json
+    import os
+    p = os.path.join(os.path.dirname(os.path.abspath(__file__)), "..", "..", "..", "corpus", "C11", "life_cases.json")
+    return [(c["global_mode"], c["script"], c["schedule"], "corpus/" + c["name"]) for c in json.load(open(p))]
+
+
+CORPUS = _load_corpus()
 
 
 def _run_chunk(exe, lines, env):
@@ -119,7 +115,7 @@ def _run_chunk(exe, lines, env):
     results, cur = [], []
     for l in out[1:]:
         cur.append(l)
-        if l.startswith(("END", "TIMEOUT")):
+        if l.startswith(("END", "TIMEOUT", "FR ")):
             results.append(cur); cur = []
     if cur or (len(results) < len(lines) and rc != 0 and not (results and not results[-1][-1].startswith("END done"))):
         results.append(cur + ["TIMEOUT rc=%s %s" % (rc, err.strip()[-200:])])
@@ -198,9 +194,9 @@ def run_life(ctx, quick):
     exe = ctx.link("c11_life", ["c11_life.c"], exclude=["barrier/feb.c"])
     drv = ctx.model_driver("c11life_driver")
     if quick:
-        configs = [((1, 1), 26, 5), ((2, 2), 5, 4)]
+        configs = [((1, 1), 26, 5, 6), ((2, 2), 5, 4, 8)]
     else:
-        configs = [((1, 1), 400, 60), ((1, 4), 200, 60), ((2, 2), 60, 90), ((4, 1), 40, 90), ((3, 2), 30, 60)]
+        configs = [((1, 1), 400, 60, 40), ((1, 4), 200, 60, 60), ((2, 2), 60, 90, 60), ((4, 1), 40, 90, 40), ((3, 2), 30, 60, 40)]
     evals = steps = skipped = 0
     nontrivial = set()
     hist = {}
@@ -208,7 +204,9 @@ def run_life(ctx, quick):
     mismatches = []
     fails = []          # (signature|None, reason, case)
     uaf_seen = 0
-    for ((ns, nw), ncases, budget) in configs:
+    free_race = 0
+    free_runs = 0
+    for ((ns, nw), ncases, budget, nfree) in configs:
         r2 = rng.fork()
         small = ns > 1
         cases = [c for c in CORPUS]
@@ -252,6 +250,40 @@ def run_life(ctx, quick):
                     uaf_seen += 1
             if len(samples) < 3 and len(impl) > 25 and not flav.startswith("corpus"):
                 samples.append({"config": [ns, nw], "script": ops_str(ops), "flavour": flav, "impl_first_steps": impl[:6], "impl_last_steps": impl[-3:], "steps": len(impl)})
+        # ---- free-running groups (random yields before every access, no controller): M4, property oracle only
+        free = []
+        for _ in range(nfree):
+            n = r2.range(1, 6)
+            ops = ["e:%d:%d" % (n, r2.range(1, 4))]
+            if r2.chance(1, 2):
+                n2 = r2.range(1, 6)
+                ops += ["r:%d" % n2, "e:%d:%d" % (n2, r2.range(1, 3))]
+            free.append((r2.below(2), r2.below(2), r2.below(1 << 30), r2.choice([0, 2, 3, 5]), ops))
+        flines = ["F %d %d %d %d | %s" % (g, pd, sd, yd, " ".join(o)) for (g, pd, sd, yd, o) in free]
+        fres = run_impl(exe, flines, env, budget, ctx.notes, watchdog=30 if ns == 1 else 60, chunk=40)
+        for f, r, fl in zip(free, fres, flines):
+            if r is None:
+                skipped += 1
+                continue
+            evals += 1
+            free_runs += 1
+            hist["free"] = hist.get("free", 0) + 1
+            case = {"config": [ns, nw], "free_running": True, "global_mode": f[0], "participant_0_destroys_after_its_last_return": f[1],
+                    "seed": f[2], "yield_1_in": f[3], "groups": " ".join(f[4]), "input_line": fl}
+            last = r[-1] if r else "TIMEOUT"
+            if last.startswith("FR"):
+                q = list(map(int, last.split()[1:]))
+                if q[0] != 0:
+                    fails.append((None, "free run: participant %d returned from enter no. %d while some participant had made only %d calls" % (q[1], q[2], q[3]), case))
+                elif q[4] != 0 or q[5] != 0:
+                    fails.append((None, "free run: %d participants short of episodes, blockers=%d at the end" % (q[4], q[5]), case))
+                elif q[6] != 0 and not f[1]:
+                    fails.append((None, "free run: %d accesses to the barrier after the destroy that followed the join" % q[6], case))
+                elif q[6] != 0:
+                    free_race += 1
+            else:
+                fails.append((None, "free-running groups never all returned (watchdog, reproduced with 2x the time): the model completes "
+                                    "(barrier_lifecycle_no_deadlock)", dict(case, impl=r[-3:])))
     cov = ctx.cov
     cov["life_evaluations"] = evals
     cov["life_distinct_nontrivial"] = len(nontrivial)
@@ -267,6 +299,11 @@ def run_life(ctx, quick):
                         "qt_global_barrier before init, re-creation; compared with the extracted machine after every step; "
                         "non-trivial = >= 3 operations and a group of >= 2 participants")
     cov["life_destroy_race_reproduced"] = uaf_seen
+    cov["life_free_runs"] = free_runs
+    cov["life_free_runs_destroy_race_hit"] = free_race
+    if free_race:
+        ctx.notes.append("note (%s): %d free-running runs (no controller; participant 0 destroys right after its last return) had a "
+                         "participant access the barrier after the free" % (DESTROY_SIG, free_race))
     cov["life_refuted_on_current_tree"] = ["barrier_destroy_waits_for_leavers_refuted", "more_participants_refuted",
                                            "global_enter_before_init_refuted"]
     for k in ("evaluations", "traces_validated_against_impl"):
@@ -314,6 +351,12 @@ def replay_life(ctx, case):
     res = run_impl(exe, [line], core.qenv(cfg[0], cfg[1], stack=65536), 600, ctx.notes, watchdog=60)
     impl = res[0] or ["TIMEOUT"]
     print("\n".join(impl[-14:]))
+    if line.startswith("F"):
+        q = list(map(int, impl[-1].split()[1:])) if impl[-1].startswith("FR") else None
+        pd = int(line.split()[2])
+        if not q or q[0] or q[4] or q[5] or (q[6] and not pd):
+            ctx.violation("replay", "free run: " + impl[-1], case)
+        return
     gm = int(line.split("|")[0].split()[1])
     ops = line.split("|")[1].split()
     rc, mout, _ = core.run_lines(drv, [line, "O %d | %s" % (gm, " ".join(ops))])
